@@ -248,6 +248,8 @@ impl ValueFlags {
 
 impl AtomicValueFlags {
     pub(crate) fn fetch_or(&self, flags: ValueFlags) -> ValueFlags {
+        #[cfg(wild_verif)]
+        simrt::sched_point("flags_fetch_or");
         // Calling fetch_or on our atomic requires that we gain exclusive access to the cache line
         // containing the atomic. If all the bits are already set, then that's wasteful, so we first
         // check if the bits are set and if they are, we skip the fetch_or call.
@@ -264,10 +266,14 @@ impl AtomicValueFlags {
     }
 
     pub(crate) fn or_assign(&self, flags: ValueFlags) {
+        #[cfg(wild_verif)]
+        simrt::sched_point("flags_or_assign");
         self.0.fetch_or(flags.bits(), Ordering::Relaxed);
     }
 
     pub(crate) fn remove(&self, flags_to_remove: ValueFlags) {
+        #[cfg(wild_verif)]
+        simrt::sched_point("flags_remove");
         self.0.fetch_and(!flags_to_remove.bits(), Ordering::Relaxed);
     }
 }
